@@ -26,6 +26,16 @@ CLAIMED = {
             'not decided; a position-driven range flush is accepted as covering.',
             'Trusts the flush-family tables and the 2 + 3 reviewed sites in sa/rules/c02.py.',
             'DESIGN.md §2 C02'),
+    'C04': ('argument-role check on every unparse-family call (never the tree being edited), provenance of the line sets handed to the '
+            'indent rewriters and narrowing-only construction of the indentable set with an arm per multi-line literal kind, '
+            'overwrite-before-emit typestate in the f/t-string continuation scanner, reaching-definitions contradiction check between '
+            'the comment / continuation flags of fragment scans and the tests applied to their results',
+            'Static: decides four necessary conditions of formatting preservation: the target is never re-rendered, indentation '
+            'changes are confined to lines outside multi-line literals (including nested f/t-strings), and no scan that skips comments '
+            'is followed by a (dead) comment guard. Which bytes an edit changes (trivia, separators, blank lines) is value-level '
+            'and not decided.',
+            'Trusts receiver-role derivation (sa/effects.py); `FST.ast_src` is the one sanctioned render of a live node.',
+            'DESIGN.md §2 C04'),
     'C11': ('syntax-order table completeness and order against the grammar (shared with C14), orientation typestate of reversed work '
             'lists in the interleaved child builders, unit inference (bytes vs characters) on the offset primitives, control-dependence '
             'of the early termination of the offset walk',
@@ -176,7 +186,7 @@ NOT_APPLICABLE = {
            'conservation is value-level. Its two structural clauses are checked as R5.1 and R7.3.',
 }
 
-PLANNED = ['C02', 'C04']
+PLANNED = []
 
 
 def main():
